@@ -209,6 +209,7 @@ Case gen() {
   Paths64 open;
   int n = (int)G::range(1, 3);
   for (int k = 0; k < n; ++k) open.push_back(GEN::randomPath(2, 8, R + R / 4));
+  if (G::chance(35)) { int pct = (int)G::range(20, 60); for (auto& p : open) GEN::axisAlignSome(p, pct); }   // horizontal / vertical open segments
   c.p["open"] = open;
   ST.count("shape_" + g.shape);
   return c;
